@@ -3563,7 +3563,9 @@ func _append(n *node) {
 		n.exec = func(f *frame) bltn {
 			sl := make([]reflect.Value, l)
 			for i, v := range values {
-				sl[i] = v(f)
+				// An argument may be an element of the slice, which the append of
+				// a previous argument overwrites.
+				sl[i] = copyValue(v(f))
 			}
 			dest(f).Set(reflect.Append(value(f), sl...))
 			return next
